@@ -4,9 +4,13 @@
     Abstract LTX file: (level, minTXID, maxTXID, commit, pages pgno -> content,
     bad).  Page content is an abstract value (a digest of the page with header
     bytes 18-19 and 24-27 of page 1 masked: those are the bytes applyLTXFile
-    rewrites).  [bad] models the two ways applyLTXFile fails: 1 = OpenLTXFile /
-    DecodeHeader error (nothing written), 2 = Decoder.Close error after every
-    page was written and the file truncated (trailer checksum mismatch).
+    rewrites).  [bad] is the outcome of the fallible steps of applyLTXFile:
+    0 = ok; 1 = OpenLTXFile / DecodeHeader error (nothing written); 3 =
+    OpenLTXFile reports that the file does not exist (it was listed, then
+    compacted away or removed by retention before the follower opened it:
+    nothing written; the code does NOT treat this specially - it is an error
+    like any other); 2 = Decoder.Close error after every page was written and
+    the file truncated (trailer checksum mismatch).
 
     Image: the follower's database file as page map + size in pages.  A page
     inside the size that was never written reads as zeros (content 0): WriteAt
@@ -41,7 +45,7 @@ Definition pg (im : image) (p : N) : option N :=
     file order; [if hdr.Commit > 0 { sync; truncate }]; dec.Close (may fail,
     everything already written); sync. *)
 Definition apply_ltx_file (im : image) (f : ltxf) : image * bool :=
-  if f_bad f =? 1 then (im, false)
+  if (f_bad f =? 1) || (f_bad f =? 3) then (im, false)
   else
     let im1 := write_pages im (f_pages f) in
     let im2 := if 0 <? f_commit f then truncate im1 (f_commit f) else im1 in
@@ -50,6 +54,9 @@ Definition apply_ltx_file (im : image) (f : ltxf) : image * bool :=
 (** follower state inside one poll: the file and (ghost) the files whose
     application was attempted, in order *)
 Record fstate := mkSt { s_img : image; s_applied : list ltxf }.
+
+(** the application of [f] fails (for every image) *)
+Definition fails (f : ltxf) : bool := (f_bad f =? 1) || (f_bad f =? 3) || (f_bad f =? 2).
 
 Definition do_apply (st : fstate) (f : ltxf) : fstate * bool :=
   let r := apply_ltx_file (s_img st) f in
